@@ -721,6 +721,306 @@ def C16(tier, seed):
         shutil.rmtree(wd, ignore_errors=True)
 
 
-REGISTRY = {"C01": C01, "C06": C06, "C07": C07, "C08": C08, "C09": C09, "C14": C14, "C15": C15, "C16": C16, "C18": C18}
+def C19(tier, seed):
+    """fault enumeration: for sampled behaviours of the model, inject a failure (single and bursts) at EVERY
+    file-system effect the real code performs along the history (the hook points of a recording run)."""
+    import json
+    import os
+    import random
+    import shutil
+    import time
+    from . import common as C
+    t0 = time.time()
+    pid = "C19"
+    wd = C.workdir(pid)
+    try:
+        build_s = C.build_harness()
+        states = transitions = 0
+        rng = random.Random(seed)
+        base = []
+        gens = [("MCFlw_C07gen.cfg", 60 if tier == "quick" else 1500), ("MCFlw_C01gen.cfg", 60 if tier == "quick" else 1500),
+                ("MCFlw_C06gen.cfg", 40 if tier == "quick" else 800)]
+        for gcfg, lim in gens:
+            r = C.run_tlc("MCFlw.tla", os.path.join(C.SPEC, gcfg), os.path.join(wd, "gen-" + gcfg), workers=4, timeout=900)
+            reps = C.drop_prefixes(C.replay_lines(r))
+            states += r["states"]
+            transitions += r["transitions"]
+            random.Random(seed + 5).shuffle(reps)
+            # longest behaviours first: they rotate and clean up
+            reps = sorted(reps[:lim * 20], key=lambda x: -len(x["steps"]))[:lim]
+            for m in G.model_to_scenarios(reps, start_sc=len(base) + 1, origin="tlc:" + gcfg):
+                if any(st["op"] in ("ExtRemove",) for st in m["steps"]):
+                    continue
+                # lengths >= 9 so that every record carries its id
+                for st in m["steps"]:
+                    if st["op"] == "Log":
+                        st["len"] = max(9, st["len"])
+                m["cfg"]["link"] = (len(base) % 4 == 0)
+                base.append(m)
+        for i in range(30 if tier == "quick" else 600):
+            c = G.rand_cfg(rng, criteria=("size", "size", "both"), modes=("direct", "direct", "buf"), clean=(i % 2 == 0))
+            c["crlf"] = False
+            c["bg"] = False
+            if "size" in c:
+                c["size"] = rng.choice([10, 30, 60])
+            steps = [{"op": "Start", "append": rng.random() < 0.3}]
+            for _ in range(rng.choice([6, 12])):
+                if rng.random() < 0.1:
+                    steps.append({"op": "Trigger"})
+                steps.append({"op": "Log", "len": rng.choice([9, 12, 21, 40])})
+            steps.append({"op": "Stop"})
+            base.append({"sc": len(base) + 1, "cfg": c, "t0": 1000, "steps": steps, "origin": "rand"})
+        # phase 1: recording run -> number of file-system effects per history
+        for b in base:
+            b["points"] = True
+        rec = C.run_sharded(pid, "MonC19", base, wd)
+        if rec["bads"]:
+            C.log(f"[C19] note: {len(rec['bads'])} predicate failures already without any injected fault")
+        hits = {}
+        ptnames = {}
+        for tf in rec["traces"]:
+            for line in open(tf):
+                e = json.loads(line)
+                if e["ev"] != "Begin":
+                    hits[e["sc"]] = max(hits.get(e["sc"], 0), e.get("fshits", 0))
+                    for pn in e.get("pts", []):
+                        ptnames.setdefault(pn[0], 0)
+                        ptnames[pn[0]] += 1
+        # phase 2: one run per (history, effect index, burst length)
+        scens = []
+        bursts = [1, 2] if tier == "quick" else [1, 2, 3]
+        for b in base:
+            h = hits.get(b["sc"], 0)
+            for k in range(1, h + 1):
+                for bl in bursts:
+                    v = dict(b)
+                    v["sc"] = len(scens) + 1
+                    v["points"] = False
+                    v["steps"] = [{"op": "Fault", "name": "*", "from": k, "burst": bl, "kind": "other"}] + b["steps"]
+                    v["tag"] = {"k": k, "burst": bl, "base": b["sc"]}
+                    scens.append(v)
+        limit = 9000 if tier == "quick" else 200000
+        if len(scens) > limit:
+            random.Random(seed + 9).shuffle(scens)
+            scens = scens[:limit]
+            for i, v in enumerate(scens):
+                v["sc"] = i + 1
+        res = C.run_sharded(pid, "MonC19", scens, wd)
+        allbads = rec["bads"] + res["bads"]
+        C.log(f"[C19] {len(base)} histories with {sum(hits.values())} file-system effects ({ptnames}); {res['scenarios']} fault "
+              f"runs (every effect index x bursts {bursts}) / {res['events']} events; judged by MonC19.tla in {res['wall_s']}s; "
+              f"{len(allbads)} predicate failures; counters {res['counts']}")
+        viols, known = C.triage(pid, res["bads"], res["traces"], res["scen_files"])
+        v0, k0 = C.triage(pid, rec["bads"], rec["traces"], rec["scen_files"])
+        viols += v0
+        for fnd, cnt in known + k0:
+            C.log(f"KNOWN-FINDING: property={pid} {fnd['id']}: {fnd['what']} ({cnt} occurrences)")
+        for v in viols[:10]:
+            C.log(f"VIOLATION property={pid} replay={v['replay']}")
+            C.log(f"   predicate {v['pred']} failed at scenario {v['sc']} event {v['n']}; facts {v['facts']}")
+        cov = {"evaluations": res["scenarios"] + rec["scenarios"],
+               "distinct_nontrivial": len({json.dumps([s["cfg"], s["steps"]], sort_keys=True) for s in scens}),
+               "rule": "histories = longest maximal behaviours of the bounded Flw model (cleanup/compression, restarts, "
+                       "forced rotations, symlink) + random; a recording run counts the file-system effects (hook points "
+                       "fs:open/write/rename/remove/gz_create/gz_copy/gz_finish/remove_orig/flush/symlink/unlink_link) of "
+                       "each history; then one run per (history, effect index k, burst length) makes effects k..k+burst-1 "
+                       "fail with an io::Error; non-trivial = a failure was actually injected",
+               "samples": C.sample_traces(res["traces"], k=2, maxev=12),
+               "histories": len(base), "effects_total": sum(hits.values()), "effects_by_hook": ptnames,
+               "bursts": bursts, "events_judged": res["events"], "states": states, "transitions": transitions,
+               "traces_validated_against_impl": res["scenarios"], "monitor": "MonC19.tla",
+               "monitor_counters": res["counts"], "predicate_failures": len(allbads),
+               "known_findings_hit": [{"id": f["id"], "count": c} for f, c in known + k0],
+               "exhaustive": len(scens) < limit, "harness_build_s": round(build_s, 1)}
+        C.write_evidence(pid, tier, seed, "fault_enumeration", cov,
+                         A_COMMON + ["a failure is injected before the effect (the call is skipped and an io::Error of kind "
+                                     "Other returned); partially performed effects (short writes) are not produced",
+                                     "synchronous cleanup (failures inside the background cleanup thread are not reported "
+                                     "by design and keep no record from being written)"], time.time() - t0, len(viols))
+        return 1 if viols else 0
+    finally:
+        shutil.rmtree(wd, ignore_errors=True)
+
+
+def C11(tier, seed):
+    """crash enumeration: for sampled behaviours of the model, kill the process (abort) immediately before EVERY
+    file-system effect the real code performs along the history, then start a new logger on the directory."""
+    import json
+    import os
+    import random
+    import shutil
+    import subprocess
+    import time
+    from concurrent.futures import ThreadPoolExecutor
+    from . import common as C
+    t0 = time.time()
+    pid = "C11"
+    wd = C.workdir(pid)
+    shm = os.path.join("/dev/shm" if os.path.isdir("/dev/shm") else wd, f"flv-c11-{os.getpid()}")
+    try:
+        build_s = C.build_harness()
+        states = transitions = 0
+        rng = random.Random(seed)
+        base = []
+        gens = [("MCFlw_C07gen.cfg", 50 if tier == "quick" else 1200), ("MCFlw_C01gen.cfg", 25 if tier == "quick" else 600),
+                ("MCFlw_C06gen.cfg", 25 if tier == "quick" else 600)]
+        for gcfg, lim in gens:
+            r = C.run_tlc("MCFlw.tla", os.path.join(C.SPEC, gcfg), os.path.join(wd, "gen-" + gcfg), workers=4, timeout=900)
+            reps = C.drop_prefixes(C.replay_lines(r))
+            states += r["states"]
+            transitions += r["transitions"]
+            random.Random(seed + 5).shuffle(reps)
+            reps = sorted(reps[:lim * 20], key=lambda x: -len(x["steps"]))[:lim]
+            for m in G.model_to_scenarios(reps, start_sc=len(base) + 1, origin="tlc:" + gcfg):
+                if any(st["op"] in ("ExtRemove",) for st in m["steps"]):
+                    continue
+                for st in m["steps"]:
+                    if st["op"] == "Log":
+                        st["len"] = max(9, st["len"])
+                m["cfg"]["mode"] = "direct" if len(base) % 5 else m["cfg"].get("mode", "direct")
+                m["cfg"]["link"] = (len(base) % 4 == 0)
+                base.append(m)
+        for i in range(25 if tier == "quick" else 500):
+            c = G.rand_cfg(rng, criteria=("size",), modes=("direct",), clean=(i % 3 != 2))
+            c["crlf"] = False
+            c["bg"] = False
+            c["size"] = rng.choice([10, 30, 60])
+            c["suffix"] = rng.choice(["log", "txt", "-"])
+            steps = [{"op": "Start", "append": rng.random() < 0.3}]
+            for _ in range(rng.choice([6, 12])):
+                if rng.random() < 0.1:
+                    steps.append({"op": "Trigger"})
+                steps.append({"op": "Log", "len": rng.choice([9, 12, 21, 40])})
+            steps.append({"op": "Stop"})
+            base.append({"sc": len(base) + 1, "cfg": c, "t0": 1000, "steps": steps, "origin": "rand"})
+        # phase 1: recording run -> number of file-system effects (= crash points) per history
+        for b in base:
+            b["points"] = True
+        rec = C.run_sharded(pid, "MonC01", base, wd)   # judged by nothing relevant here; only the point counts are used
+        hits = {}
+        ptnames = {}
+        for tf in rec["traces"]:
+            for line in open(tf):
+                e = json.loads(line)
+                if e["ev"] != "Begin":
+                    hits[e["sc"]] = max(hits.get(e["sc"], 0), e.get("fshits", 0))
+                    for pn in e.get("pts", []):
+                        if pn[0].startswith("fs:"):
+                            ptnames[pn[0]] = ptnames.get(pn[0], 0) + 1
+        jobs = []
+        for b in base:
+            for k in range(1, hits.get(b["sc"], 0) + 1):
+                jobs.append((b, k))
+        limit = 2500 if tier == "quick" else 60000
+        if len(jobs) > limit:
+            random.Random(seed + 9).shuffle(jobs)
+            jobs = jobs[:limit]
+        os.makedirs(shm, exist_ok=True)
+        tdir = os.path.join(wd, "crash")
+        os.makedirs(tdir, exist_ok=True)
+
+        def one(ix):
+            b, k = jobs[ix]
+            sc = ix + 1
+            root = os.path.join(shm, f"r{ix}")
+            a = dict(b)
+            a.update({"sc": sc, "points": False, "keep": True, "tag": {"k": k, "base": b["sc"]}})
+            sa, ta = os.path.join(tdir, f"a{ix}.scen"), os.path.join(tdir, f"a{ix}.trace")
+            note = os.path.join(tdir, f"a{ix}.note")
+            open(sa, "w").write(json.dumps(a) + "\n")
+            env = dict(os.environ)
+            env.setdefault("TZ", "UTC")
+            p = subprocess.run([C.FLV, "flw", sa, ta, "--root", root, "--flush-each", "--crash-at", str(k), "--note", note],
+                               stdout=subprocess.PIPE, stderr=subprocess.PIPE, env=env, timeout=120)
+            died = p.returncode != 0
+            evs = [json.loads(x) for x in open(ta) if x.strip()] if os.path.exists(ta) else []
+            if not died:
+                shutil.rmtree(root, ignore_errors=True)
+                return None   # the history never reached effect k (does not happen after the recording run)
+            acked = [e["id"] for e in evs if e.get("ev") == "Log" and e.get("ret") == "ok" and e.get("id", 0) > 0]
+            last = max(acked) if acked else 0
+            at = open(note).read().strip() if os.path.exists(note) else ""
+            bsteps = [{"op": "Start", "append": (k % 2 == 0)}, {"op": "Log", "len": 12}, {"op": "Log", "len": 12},
+                      {"op": "Trigger"}, {"op": "Log", "len": 12}, {"op": "Stop"}]
+            bsc = {"sc": sc, "cfg": b["cfg"], "t0": b.get("t0", 1000) + 5, "steps": bsteps, "resume": True, "id0": last + 1,
+                   "n0": len(evs), "crashed_at": at.split(" ")[0], "origin": b.get("origin", "")}
+            sb, tb = os.path.join(tdir, f"b{ix}.scen"), os.path.join(tdir, f"b{ix}.trace")
+            open(sb, "w").write(json.dumps(bsc) + "\n")
+            p2 = subprocess.run([C.FLV, "flw", sb, tb, "--root", root], stdout=subprocess.PIPE, stderr=subprocess.PIPE,
+                                env=env, timeout=120)
+            shutil.rmtree(root, ignore_errors=True)
+            lines = [x for x in open(ta) if x.strip()] + ([x for x in open(tb) if x.strip()] if os.path.exists(tb) else [])
+            if p2.returncode != 0:
+                # the restarted process itself died: recorded as data
+                lines.append(json.dumps({"sc": sc, "n": len(lines) + 1, "ev": "RestartDied", "ret": "panic:process exit " + str(p2.returncode),
+                                         "retk": "panic", "o": False, "errs": [], "inj": 0, "injp": [], "faultleft": 0, "t": 0}) + "\n")
+            return (sc, at.split(" ")[0], lines, a)
+
+        with ThreadPoolExecutor(max_workers=12) as ex:
+            results = [r for r in ex.map(one, range(len(jobs))) if r]
+        # judge: concatenate into a few trace files
+        nsh = 8
+        traces, scen_files, crash_by_hook = [], [], {}
+        for i in range(nsh):
+            tf = os.path.join(wd, f"MonC11-trace-{i}.ndjson")
+            sf = os.path.join(wd, f"MonC11-scen-{i}.ndjson")
+            with open(tf, "w") as f, open(sf, "w") as g:
+                for (sc, at, lines, a) in results[i::nsh]:
+                    f.writelines(lines)
+                    g.write(json.dumps(a) + "\n")
+            traces.append(tf)
+            scen_files.append(sf)
+        for (sc, at, lines, a) in results:
+            crash_by_hook[at] = crash_by_hook.get(at, 0) + 1
+
+        def j(i):
+            return C.judge("MonC11", traces[i], os.path.join(wd, f"meta-{i}"))
+        with ThreadPoolExecutor(max_workers=nsh) as ex:
+            jr = list(ex.map(j, range(nsh)))
+        bads, counts, events = [], [], 0
+        for (b_, c_, consumed, nl) in jr:
+            bads += b_
+            events += nl
+            if c_:
+                counts = [x + y for x, y in zip(counts, c_)] if counts else list(c_)
+        C.log(f"[C11] {len(base)} histories, {sum(hits.values())} crash points; {len(results)} kill+restart runs "
+              f"(killed before: {crash_by_hook}) / {events} events; judged by MonC11.tla; {len(bads)} predicate failures; "
+              f"counters {counts}")
+        viols, known = C.triage(pid, bads, traces, scen_files)
+        for fnd, cnt in known:
+            C.log(f"KNOWN-FINDING: property={pid} {fnd['id']}: {fnd['what']} ({cnt} occurrences)")
+        for v in viols[:10]:
+            C.log(f"VIOLATION property={pid} replay={v['replay']}")
+            C.log(f"   predicate {v['pred']} failed at scenario {v['sc']} event {v['n']}; facts {v['facts']}")
+        cov = {"evaluations": len(results), "distinct_nontrivial": len({(id(b), k) for (b, k) in jobs}),
+               "rule": "histories = longest maximal behaviours of the bounded Flw model (cleanup/compression, restarts, forced "
+                       "rotations, symlink) + random; a recording run counts the file-system effects of each history; then "
+                       "one child process per (history, effect index k) aborts immediately before effect k (each completed "
+                       "call was acknowledged by a flushed trace line); a second process observes the directory, starts a "
+                       "new logger on it (append on/off alternating) and continues logging and rotating",
+               "samples": C.sample_traces(traces, k=2, maxev=14), "histories": len(base),
+               "crash_points_total": sum(hits.values()), "killed_before_hook": crash_by_hook, "effects_by_hook": ptnames,
+               "events_judged": events, "states": states, "transitions": transitions,
+               "traces_validated_against_impl": len(results), "monitor": "MonC11.tla", "monitor_counters": counts,
+               "predicate_failures": len(bads), "known_findings_hit": [{"id": f["id"], "count": c} for f, c in known],
+               "exhaustive": len(jobs) < limit, "harness_build_s": round(build_s, 1)}
+        C.write_evidence(pid, tier, seed, "fault_enumeration", cov,
+                         A_COMMON + ["process kill (abort), not power loss: data handed to the kernel survives",
+                                     "kill points are the hook points before each file-system effect (plus none inside an "
+                                     "effect); virtual birth times do not survive the kill (size criterion scenarios)"],
+                         time.time() - t0, len(viols))
+        return 1 if viols else 0
+    finally:
+        shutil.rmtree(wd, ignore_errors=True)
+        shutil.rmtree(shm, ignore_errors=True)
+
+
+REGISTRY = {"C01": C01, "C06": C06, "C07": C07, "C08": C08, "C09": C09, "C11": C11, "C14": C14, "C15": C15, "C16": C16,
+            "C18": C18, "C19": C19}
 MONITOR = {}
 EXECUTOR = {}
+
+
+from . import routecheck as R  # noqa: E402
+REGISTRY.update({"C13": R.C13, "C20": R.C20})
+EXECUTOR.update({"C13": "route", "C20": "route"})
